@@ -64,6 +64,15 @@ CLAIMS = {
             "and head/tail pointers change only under the list lock, remove_head pops only the scanned segment and retires it after unlocking; "
             "allocation size / initialised count / index range agree on the (power-of-two) quasi factor; HP guard discipline. The quasi-FIFO "
             "bound and conservation under interleavings are NOT decided.", PATHS, "DESIGN.md §4 C08"),
+    "C13": ("other", "Path rules over MichaelList / LazyList / IterableList (intrusive and container layers): HP/DHP guard typestate (a link read from "
+            "a shared atomic is dereferenced only after protection; IterableList node links exempt because nodes are freed only at tear-down or "
+            "when never published - itself checked); RCU read-lock discipline from the code's own is_locked() assertions (nothing that "
+            "synchronizes/retires inside a lock scope, incl. implicit destructor calls; entry points relying on the caller's lock must be in the "
+            "reviewed contract table); MichaelList retires a node only after winning the CAS that unlinks that node, unlinks only after winning "
+            "the mark CAS, publishes a node after initialising its link; LazyList links/unlinks only inside an RAII position lock and after "
+            "validate(), retires outside the lock. Linearizability / no-duplicate-key under interleavings is NOT decided.",
+            "static analysis: typestate on enumerated CFG paths + belief propagation over the call graph (asserts harvested from a -UNDEBUG parse)",
+            "DESIGN.md §4 C13"),
     "C17": ("other", "Hash-independent element conservation on every CFG path of the relocation code: CuckooSet::resize and relocate insert "
             "each moved element exactly once (known finding D5: the all-probe-sets-full path of resize drops the element), probe-set positions "
             "are used before anything mutates the probe sets, StripedSet::internal_resize moves every element of every old bucket once into "
